@@ -1023,7 +1023,20 @@ impl<'a, E: quiver_core::effects::Effect> Compiler<'a, E> {
             }
 
             field_types.push((field.name.clone(), field_type));
-            field_provenances.push(field_prov);
+            // A field whose chain ends in a match holds the match's verdict, not the matched
+            // value: it must not carry the matched value's provenance.
+            let field_is_verdict = match &field.value {
+                ast::FieldValue::Chain(chain) => {
+                    chain.match_pattern.is_some()
+                        || matches!(chain.terms.last(), Some(ast::Term::Match(_)))
+                }
+                ast::FieldValue::Spread(_) => false,
+            };
+            field_provenances.push(if field_is_verdict {
+                Provenance::Unknown
+            } else {
+                field_prov
+            });
         }
 
         // Register the tuple type and emit instruction
